@@ -21,6 +21,8 @@ func init() {
 	evals["recwrite"] = evalRecwrite
 	evals["recread"] = evalRecread
 	evals["expad"] = evalExpad
+	evals["recwrites"] = evalRecwrites
+	evals["recreads"] = evalRecreads
 	gens["C07"] = genC07
 }
 
@@ -79,10 +81,23 @@ func splitRecords(wire []byte) [][]byte {
 }
 
 func doWrite(suite string, mac, key, iv, rnd []byte, writes [][]byte) ([][]byte, error) {
+	return doWriteFrom(suite, mac, key, iv, rnd, 0, writes)
+}
+
+func seq8(n uint64) (b [8]byte) {
+	binary.BigEndian.PutUint64(b[:], n)
+	return
+}
+
+// doWriteFrom: as doWrite, with both sequence numbers of the connection set to start first
+func doWriteFrom(suite string, mac, key, iv, rnd []byte, start uint64, writes [][]byte) ([][]byte, error) {
 	mc := &memConn{}
 	c := gmtls.VerifEstablished(mc, true, suiteID(suite), mac, key, iv, mac, key, iv, &fixedRand{rnd})
 	if c == nil {
 		return nil, fmt.Errorf("no suite")
+	}
+	if start != 0 {
+		c.VerifSetSeq(seq8(start), seq8(start))
 	}
 	for _, w := range writes {
 		n, err := c.Write(w)
@@ -215,6 +230,84 @@ func evalRecread(args []string) string {
 	return hx(got) + " " + status + " " + prefix
 }
 
+// recwrites <startseq> <suite> <mac> <key> <iv> <rand> <w1,w2,...> : recwrite on a connection whose sequence
+// numbers stand at <startseq> (8 bytes hex): carries between the bytes of the counter.
+func evalRecwrites(args []string) string {
+	if len(args) != 7 {
+		return "bad-op"
+	}
+	sq, ok0 := unhx(args[0])
+	mac, ok1 := unhx(args[2])
+	key, ok2 := unhx(args[3])
+	iv, ok3 := unhx(args[4])
+	rnd, ok4 := unhx(args[5])
+	if !ok0 || !ok1 || !ok2 || !ok3 || !ok4 || len(sq) != 8 {
+		return "bad-op"
+	}
+	var writes [][]byte
+	for _, w := range strings.Split(args[6], ",") {
+		b, ok := unhx(w)
+		if !ok {
+			return "bad-op"
+		}
+		writes = append(writes, b)
+	}
+	recs, err := doWriteFrom(args[1], mac, key, iv, rnd, binary.BigEndian.Uint64(sq), writes)
+	if err != nil {
+		return "err"
+	}
+	var hs []string
+	for _, r := range recs {
+		hs = append(hs, hx(r))
+	}
+	return strings.Join(hs, ",")
+}
+
+// recreads <startseq> <suite> <mac> <key> <iv> <wire> <sent> : recread with the receiver's sequence number
+// at <startseq>; additionally the receiver's sequence number afterwards (hex) is printed.
+func evalRecreads(args []string) string {
+	if len(args) != 7 {
+		return "bad-op"
+	}
+	sq, ok0 := unhx(args[0])
+	mac, ok1 := unhx(args[2])
+	key, ok2 := unhx(args[3])
+	iv, ok3 := unhx(args[4])
+	wire, ok4 := unhx(args[5])
+	sent, ok5 := unhx(args[6])
+	if !ok0 || !ok1 || !ok2 || !ok3 || !ok4 || !ok5 || len(sq) != 8 {
+		return "bad-op"
+	}
+	mc := &memConn{rd: bytes.NewReader(wire)}
+	c := gmtls.VerifEstablished(mc, false, suiteID(args[1]), mac, key, iv, mac, key, iv, &fixedRand{make([]byte, 4096)})
+	if c == nil {
+		return "bad-op"
+	}
+	var s8 [8]byte
+	copy(s8[:], sq)
+	c.VerifSetSeq(s8, s8)
+	var got []byte
+	buf := make([]byte, 5000)
+	status := "?"
+	for i := 0; i < 100000; i++ {
+		n, err := c.Read(buf)
+		got = append(got, buf[:n]...)
+		if err != nil {
+			status = classify(err)
+			break
+		}
+	}
+	if n, err := c.Read(buf); n != 0 || err == nil {
+		return "ORACLE-FAIL:read-after-error"
+	}
+	prefix := "0"
+	if bytes.HasPrefix(sent, got) {
+		prefix = "1"
+	}
+	in, _ := c.VerifSeq()
+	return hx(got) + " " + status + " " + prefix + " " + hx(in[:])
+}
+
 // expad <payload> : extractPadding
 func evalExpad(args []string) string {
 	if len(args) != 1 {
@@ -275,6 +368,43 @@ func genC07(r *rng, tier string, emit func(string)) {
 		}
 		rec := craftCBCRecord(mac, key, 23, 0, iv, payload, pad)
 		emit(fmt.Sprintf("recread cbc %s %s %s %s %s", hx(mac), hx(key), hx(r.block16()), hx(rec), hx(payload)))
+	}
+	// sequence numbers across every byte-carry boundary of the 8-byte counter: what is written, what an
+	// honest stream delivers, and replays of the records written before the carry
+	for k := 1; k <= 7; k++ {
+		for _, suite := range []string{"cbc", "gcm"} {
+			start := uint64(1)<<(8*uint(k)) - 1 - uint64(r.intn(3))
+			mac, key := r.bytes(32), r.block16()
+			iv := r.block16()
+			if suite == "gcm" {
+				iv = r.bytes(4)
+			}
+			rnd := r.bytes(16 * 32)
+			var writes [][]byte
+			var ws []string
+			var sent []byte
+			for i := 0; i < 5; i++ {
+				w := r.bytes(1 + r.intn(20))
+				writes = append(writes, w)
+				ws = append(ws, hx(w))
+				sent = append(sent, w...)
+			}
+			sq := seq8(start)
+			emit(fmt.Sprintf("recwrites %s %s %s %s %s %s %s", hx(sq[:]), suite, hx(mac), hx(key), hx(iv), hx(rnd), strings.Join(ws, ",")))
+			recs, err := doWriteFrom(suite, mac, key, iv, rnd, start, writes)
+			if err != nil || len(recs) < 5 {
+				continue
+			}
+			// records the same keys produced at the small sequence numbers 0.. (what a counter that loses its
+			// carry would accept again)
+			low, _ := doWriteFrom(suite, mac, key, iv, rnd, 0, writes)
+			wire := bytes.Join(recs, nil)
+			emit(fmt.Sprintf("recreads %s %s %s %s %s %s %s", hx(sq[:]), suite, hx(mac), hx(key), hx(iv), hx(wire), hx(sent)))
+			for cut := 1; cut < len(recs); cut++ {
+				replay := append(append([]byte{}, bytes.Join(recs[:cut], nil)...), bytes.Join(low, nil)...)
+				emit(fmt.Sprintf("recreads %s %s %s %s %s %s %s", hx(sq[:]), suite, hx(mac), hx(key), hx(iv), hx(replay), hx(sent)))
+			}
+		}
 	}
 	for s := 0; s < nSess; s++ {
 		suite := "cbc"
